@@ -104,6 +104,8 @@ struct Any {
   virtual ~Any() {}
   virtual std::string kind() const = 0;
   virtual std::string content() const = 0;
+  // state that content() cannot show but the image stores (union: marks of the gadget's H items, through hook H4); "" = none
+  virtual std::string extra() const { return ""; }
   virtual void upd(const std::string& item, const std::string& wt) = 0;
   virtual void merge(const Any& o) = 0;
   virtual Bytes ser(unsigned h) const = 0;
@@ -307,6 +309,11 @@ template<typename T> struct VU : Any {
   std::string content() const override {
     return guarded("get-result", [&]() { SeededDraw d(12345); auto r = s.get_result(); return varopt_content<T>("VU", r); });
   }
+  std::string extra() const override {
+    std::string m = "gm=";
+    for (bool b : s.verif_gadget_marks()) m += b ? '1' : '0';
+    return m;
+  }
   void upd(const std::string&, const std::string&) override { throw std::invalid_argument("var_opt_union has no item update"); }
   void merge(const Any& o) override { const VO<T>* p = dynamic_cast<const VO<T>*>(&o); if (!p) throw std::invalid_argument("kind"); s.update(p->s); }
   Bytes ser(unsigned h) const override { auto v = s.serialize(h); return Bytes(v.begin(), v.end()); }
@@ -438,6 +445,7 @@ static std::string c09_checks(const Any& o, const Bytes& img) {
   catch (const std::exception&) { if (dg.empty()) bad.push_back("restore-bytes-throws"); }
   auto crashed = [](const std::string& c) { return c.compare(0, 6, "CRASH:") == 0; };   // already recorded in g_notes
   if (rb) { try { std::string c = rb->content(); if (c != want && !crashed(c)) bad.push_back("restore-bytes-content"); } catch (const std::exception&) { bad.push_back("restored-bytes-api-throws"); } }
+  if (rb && rb->extra() != o.extra()) bad.push_back("restore-bytes-marks");
   try {
     std::string withsent = st + std::string(8, '\xAB');
     std::istringstream is(withsent, std::ios::binary);
@@ -445,6 +453,7 @@ static std::string c09_checks(const Any& o, const Bytes& img) {
     if (!is.good() || (size_t)is.tellg() != st.size()) bad.push_back("stream-position");
   } catch (const std::exception&) { if (dg.empty()) bad.push_back("restore-stream-throws"); }
   if (rs) { try { std::string c = rs->content(); if (c != want && !crashed(c)) bad.push_back("restore-stream-content"); } catch (const std::exception&) { bad.push_back("restored-stream-api-throws"); } }
+  if (rs && rs->extra() != o.extra()) bad.push_back("restore-stream-marks");
   for (int which = 0; which < 2; ++which) {
     Any* r = which == 0 ? rb.get() : rs.get();
     if (!r) continue;
@@ -715,7 +724,8 @@ static std::string step1(const std::vector<std::string>& w) {
       std::string content;
       try { content = o.content(); } catch (const std::exception&) { return std::string("APITHROW"); }
       std::string checks = c09_checks(o, img);
-      return "IMG " + o.kind() + " " + hexs(img) + " | " + content + " | " + checks;
+      const std::string ex = o.extra();
+      return "IMG " + o.kind() + " " + hexs(img) + " | " + content + " | " + checks + (ex.empty() ? "" : " | " + ex);
     });
     if (line.compare(0, 6, "CRASH:") == 0) { g_notes.clear(); return "SERCRASH " + o.kind() + " " + line.substr(6); }
     if (line == "APITHROW") return "SERCRASH " + o.kind() + " api-throws";      // a public getter of a valid object throws
@@ -735,7 +745,9 @@ static std::string step1(const std::vector<std::string>& w) {
     if (cb != cs) bad.push_back("bytes-ne-stream");
     std::string chk = "ok";
     if (!bad.empty()) { chk = "FAIL:"; for (size_t i = 0; i < bad.size(); ++i) { if (i) chk += ","; chk += bad[i]; } }
-    return "IMG " + w.at(1) + " " + hexs(img) + " | " + cb + " | " + chk;
+    if (ob && os_ && ob->extra() != os_->extra()) chk = (chk == "ok" ? std::string("FAIL:") : chk + ",") + "bytes-ne-stream-marks";
+    const std::string ex = ob ? ob->extra() : "";
+    return "IMG " + w.at(1) + " " + hexs(img) + " | " + cb + " | " + chk + (ex.empty() ? "" : " | " + ex);
   }
   if (op == "probe") {     // probe <kind> <hex> <b|s>: deserialize + getters/updates in THIS process (debugging aid, not used by the checks)
     auto proto = make(w.at(1), {});
